@@ -13,6 +13,7 @@ from ..core import (
     calls_in,
     block_raises,
     strip_docstring,
+    const_value,
 )
 from ..cfg import cfg_of
 
@@ -44,40 +45,119 @@ def new_group_block(prog, rep, rule):
     if not ok:
         return
     body = conds[0].body
-    local_defs = {}
-    for s_ in body:
-        if isinstance(s_, ast.Assign) and len(s_.targets) == 1 and isinstance(s_.targets[0], ast.Name):
-            local_defs.setdefault(s_.targets[0].id, []).append(s_.value)
-    stack = [s for s in body if isinstance(s, ast.Assign) and unparse(s.targets[0]) == J and isinstance(s.value, ast.Call)
-             and dotted(s.value.func) in ("np.column_stack", "np.hstack")]
-    ok = len(stack) == 1
-    indicator_form = False
-    if ok:
-        arg = stack[0].value.args[0]
-        ok = isinstance(arg, (ast.List, ast.Tuple)) and len(arg.elts) == 2 and unparse(arg.elts[0]) == J
-        if ok:
-            second = arg.elts[1]
-            if isinstance(second, ast.Name) and len(local_defs.get(second.id, [])) == 1:
-                second = local_defs[second.id][0]
-            zeros = isinstance(second, ast.Call) and dotted(second.func) == "np.zeros" and unparse(second.args[0]) in (f"({J}.shape[0], 1)", f"(len({J}), 1)")
-            txt = unparse(second)
-            import re as _re
-            indicator_form = bool(_re.fullmatch(_re.escape(mv) + r"\.astype\((?:'int'|int|np\.int64|'int64'|np\.int_)\)(?:\[:, (?:np\.newaxis|None)\]|\.reshape\(-1, 1\))", txt)) \
-                or bool(_re.fullmatch(_re.escape(mv) + r"\[:, (?:np\.newaxis|None)\]\.astype\((?:'int'|int|np\.int64|'int64'|np\.int_)\)", txt))
-            ok = zeros or indicator_form
-    obl(rep, f, stack[0] if stack else conds[0], rule, ok, "one zero column is stacked AFTER the existing indicator columns (trailing block, fresh array)",
-        "", "the new-group column is not appended as the last column of a fresh array: existing blocks would shift")
-    sets = [s for s in body if isinstance(s, ast.Assign) and isinstance(s.targets[0], ast.Subscript) and unparse(s.targets[0].value) == J]
-    if indicator_form:
-        ok = not sets
-        why = "the appended column IS the unseen-group mask as integers"
-    else:
-        ok = len(sets) == 1 and unparse(sets[0].targets[0].slice) in (f"({mv}, -1)", f"{mv}, -1") and unparse(sets[0].value) == "1"
-        if ok and stack:
-            ok = body.index(sets[0]) > body.index(stack[0])
-        why = ""
-    obl(rep, f, sets[0] if sets else conds[0], rule, ok, f"the new column is set to 1 exactly on the unseen-group rows (`{J}[{mv}, -1] = 1`, same mask as the test)",
-        why, "the new-group column is not set to 1 on exactly the rows selected by the unseen-group mask")
+    # abstract evaluation of the guarded statements: the indicator matrix is [original columns] + appended columns, each appended
+    # column carrying its value on the rows of seen groups and on the rows of unseen groups (the two cases of the mask)
+    INTS = ("int", "'int'", '"int"', "np.int64", "'int64'", "np.int_", "np.intp")
+    local = {}
+
+    def strip2d(e):
+        """(expression without the 1-D -> column reshaping, was it reshaped)"""
+        if isinstance(e, ast.Subscript) and isinstance(e.slice, ast.Tuple) and len(e.slice.elts) == 2 and unparse(e.slice.elts[0]) == ":" \
+                and unparse(e.slice.elts[1]) in ("None", "np.newaxis"):
+            return e.value, True
+        if isinstance(e, ast.Call) and isinstance(e.func, ast.Attribute) and e.func.attr == "reshape" and [unparse(a) for a in e.args] in (["-1", "1"], ["(-1, 1)"]):
+            return e.func.value, True
+        return e, False
+
+    def column(e):
+        """per-case value of a would-be column: ({'seen': v, 'unseen': v}, is it 2-D) or None"""
+        if isinstance(e, ast.Name) and e.id in local:
+            return local[e.id]
+        e, two_d = strip2d(e)
+        if isinstance(e, ast.Name) and e.id in local:
+            return local[e.id][0], two_d or local[e.id][1]
+        if isinstance(e, ast.Call) and dotted(e.func) in ("np.zeros", "np.zeros_like"):
+            shp = unparse(e.args[0]) if e.args else ""
+            if dotted(e.func) == "np.zeros" and shp in (f"({J}.shape[0], 1)", f"(len({J}), 1)", f"({mv}.shape[0], 1)", f"(len({mv}), 1)", f"({mv}.size, 1)"):
+                return {"seen": 0, "unseen": 0}, True
+            if dotted(e.func) == "np.zeros" and shp in (f"{J}.shape[0]", f"len({J})", f"{mv}.shape[0]", f"len({mv})", f"{mv}.size", f"{mv}.shape"):
+                return {"seen": 0, "unseen": 0}, two_d
+            if dotted(e.func) == "np.zeros_like" and shp == mv and any(k.arg == "dtype" and unparse(k.value) in INTS for k in e.keywords):
+                return {"seen": 0, "unseen": 0}, two_d
+            return None
+        inner, reshaped_first = strip2d(e.func.value) if isinstance(e, ast.Call) and isinstance(e.func, ast.Attribute) and e.func.attr == "astype" else (None, False)
+        if inner is not None and len(e.args) == 1 and unparse(e.args[0]) in INTS and unparse(inner) == mv:
+            return {"seen": 0, "unseen": 1}, two_d or reshaped_first
+        if isinstance(e, ast.Call) and dotted(e.func) == "np.where" and len(e.args) == 3 and unparse(e.args[0]) == mv \
+                and [const_value(a, None) for a in e.args[1:]] in ([1, 0],):
+            return {"seen": 0, "unseen": 1}, two_d
+        if isinstance(e, ast.Call) and dotted(e.func) in ("np.asarray", "np.array") and e.args and unparse(e.args[0]) == mv \
+                and any(k.arg == "dtype" and unparse(k.value) in INTS for k in e.keywords):
+            return {"seen": 0, "unseen": 1}, two_d
+        if isinstance(e, ast.BinOp) and isinstance(e.op, ast.Mult) and {unparse(e.left), unparse(e.right)} == {mv, "1"}:
+            return {"seen": 0, "unseen": 1}, two_d
+        return None
+
+    appended = None      # list of per-case columns appended after the original ones
+    stack_node = None
+    problems = []
+    for st_ in body:
+        if isinstance(st_, ast.Assign) and len(st_.targets) == 1 and isinstance(st_.targets[0], ast.Name) and st_.targets[0].id != J:
+            cv = column(st_.value)
+            if cv is not None:
+                local[st_.targets[0].id] = cv
+            continue
+        if isinstance(st_, ast.Assign) and len(st_.targets) == 1 and unparse(st_.targets[0]) == J:
+            v = st_.value
+            d = dotted(v.func) if isinstance(v, ast.Call) else None
+            parts = None
+            if d in ("np.column_stack", "np.hstack") and len(v.args) == 1 and isinstance(v.args[0], (ast.List, ast.Tuple)):
+                parts, need2d = v.args[0].elts, d == "np.hstack"
+            elif d == "np.concatenate" and len(v.args) == 1 and isinstance(v.args[0], (ast.List, ast.Tuple)) \
+                    and any(k.arg == "axis" and unparse(k.value) in ("1", "-1") for k in v.keywords):
+                parts, need2d = v.args[0].elts, True
+            elif d == "np.append" and len(v.args) == 2 and any(k.arg == "axis" and unparse(k.value) in ("1", "-1") for k in v.keywords):
+                parts, need2d = list(v.args), True
+            if parts is None or appended is not None:
+                problems.append(f"`{short(st_, 60)}` is not a single column-wise stacking of the indicator matrix")
+                continue
+            stack_node = st_
+            if unparse(parts[0]) != J:
+                problems.append(f"the original indicator columns are not the first block of `{short(v, 60)}`")
+            cols = []
+            for pe in parts[1:] if unparse(parts[0]) == J else [x for x in parts if unparse(x) != J]:
+                cv = column(pe)
+                if cv is None:
+                    raise AnalysisError(f"{rule}: unmodelled new-group column `{unparse(pe)[:60]}` in {f.qual}")
+                if need2d and not cv[1]:
+                    raise AnalysisError(f"{rule}: 1-D column `{unparse(pe)[:60]}` given to {d} in {f.qual}")
+                cols.append(dict(cv[0]))
+            appended = cols
+            continue
+        if isinstance(st_, ast.Assign) and isinstance(st_.targets[0], ast.Subscript) and unparse(st_.targets[0].value) == J:
+            sl = st_.targets[0].slice
+            val = const_value(st_.value, None)
+            if appended is None or not appended:
+                problems.append(f"`{short(st_, 60)}` writes into the indicator matrix before a column was appended")
+                continue
+            if isinstance(sl, ast.Tuple) and len(sl.elts) == 2 and unparse(sl.elts[1]) == "-1" and isinstance(val, int) and not isinstance(val, bool):
+                rows = unparse(sl.elts[0])
+                if rows == mv:
+                    appended[-1]["unseen"] = val
+                elif rows in (f"~{mv}", f"np.logical_not({mv})"):
+                    appended[-1]["seen"] = val
+                elif rows == ":":
+                    appended[-1] = {"seen": val, "unseen": val}
+                else:
+                    problems.append(f"`{short(st_, 60)}`: rows selected by `{rows}`, not by the unseen-group mask `{mv}`")
+                continue
+            if isinstance(sl, ast.Tuple) and len(sl.elts) == 2 and unparse(sl.elts[0]) == ":" and unparse(sl.elts[1]) == "-1":
+                cv = column(st_.value)
+                if cv is not None:
+                    appended[-1] = dict(cv[0])
+                    continue
+            problems.append(f"`{short(st_, 60)}` writes into existing blocks of the indicator matrix")
+            continue
+        if isinstance(st_, (ast.Expr, ast.Pass)):
+            continue
+        raise AnalysisError(f"{rule}: unmodelled statement `{unparse(st_)[:60]}` in the new-group block of {f.qual}")
+    ok = appended is not None and len(appended) == 1 and not [p_ for p_ in problems if "first block" in p_ or "single column-wise" in p_]
+    obl(rep, f, stack_node or conds[0], rule, ok, "exactly one column is stacked AFTER the existing indicator columns (trailing block, fresh array)",
+        "", "; ".join(problems) or f"the new-group columns are {appended}: not one trailing column of a fresh array (existing blocks would shift)")
+    want = {"seen": 0, "unseen": 1}
+    ok2 = ok and appended[0] == want and not problems
+    obl(rep, f, stack_node or conds[0], rule, ok2, "the new column is 1 exactly on the unseen-group rows and 0 elsewhere (same mask as the test)",
+        str(appended), "; ".join(problems) or f"the appended column is {appended[0] if appended else None} on seen / unseen rows, expected {want}")
     # the product is built after the block was added, factor first
     kr = [x for x in calls_in(f.node) if dotted(x.func) == "linalg.khatri_rao"]
     ok = len(kr) == 1 and c.dominates(c.node_of(conds[0]), c.node_of(kr[0]))
@@ -154,6 +234,79 @@ def categoric_summary(prog, fn):
     S["stores"] = stores
     return S
 
+
+
+def broadcast_of(e):
+    """`e` builds an array of a given shape filled with one value: (shape text, value text, dtype text or None) or None.
+    Recognised: np.ones(S[, dtype=T]) * V, V * np.ones(S), np.full(S, V[, dtype=T]), np.full(shape=S, fill_value=V),
+    np.repeat(V, N), np.tile(V, N), np.zeros(S) + V"""
+    def alloc(x, names):
+        if isinstance(x, ast.Call) and dotted(x.func) in names and x.args:
+            dt = [unparse(k.value) for k in x.keywords if k.arg == "dtype"]
+            if len(x.args) > 1:
+                dt = [unparse(x.args[1])]
+            return unparse(x.args[0]), (dt[0] if dt else None)
+        return None
+
+    if isinstance(e, ast.BinOp) and isinstance(e.op, ast.Mult):
+        for a, b in ((e.left, e.right), (e.right, e.left)):
+            al = alloc(a, ("np.ones",))
+            if al is not None:
+                return al[0], unparse(b), al[1]
+    if isinstance(e, ast.BinOp) and isinstance(e.op, ast.Add):
+        for a, b in ((e.left, e.right), (e.right, e.left)):
+            al = alloc(a, ("np.zeros",))
+            if al is not None:
+                return al[0], unparse(b), al[1]
+    if isinstance(e, ast.Call) and dotted(e.func) == "np.full":
+        kw = {k.arg: k.value for k in e.keywords}
+        args = list(e.args)
+        shp = args[0] if args else kw.get("shape")
+        val = args[1] if len(args) > 1 else kw.get("fill_value")
+        dt = args[2] if len(args) > 2 else kw.get("dtype")
+        if shp is not None and val is not None:
+            return unparse(shp), unparse(val), (unparse(dt) if dt is not None else None)
+    if isinstance(e, ast.Call) and dotted(e.func) in ("np.repeat", "np.tile") and len(e.args) == 2 and not e.keywords:
+        return unparse(e.args[1]), unparse(e.args[0]), None
+    return None
+
+
+def indicator_of(e):
+    """`e` is an integer 0/1 indicator of an equality test: (text of left, text of right) or None.
+    Recognised: np.where(A == B, 1, 0), np.where(A != B, 0, 1), (A == B).astype(int), (A == B) * 1, 1 * (A == B),
+    np.asarray(A == B, dtype=int), np.equal(A, B).astype(int)"""
+    def eq(t):
+        if isinstance(t, ast.Compare) and len(t.ops) == 1 and isinstance(t.ops[0], ast.Eq):
+            return unparse(t.left), unparse(t.comparators[0]), True
+        if isinstance(t, ast.Compare) and len(t.ops) == 1 and isinstance(t.ops[0], ast.NotEq):
+            return unparse(t.left), unparse(t.comparators[0]), False
+        if isinstance(t, ast.Call) and dotted(t.func) in ("np.equal", "np.not_equal") and len(t.args) == 2:
+            return unparse(t.args[0]), unparse(t.args[1]), dotted(t.func) == "np.equal"
+        return None
+
+    def intlike(t):
+        return unparse(t) in ("int", "'int'", '"int"', "np.int64", "'int64'", "np.int_", "np.intp")
+
+    if isinstance(e, ast.Call) and dotted(e.func) == "np.where" and len(e.args) == 3:
+        c = eq(e.args[0])
+        vals = [const_value(a, None) for a in e.args[1:]]
+        if c and vals in ([1, 0], [0, 1]) and not any(isinstance(v, bool) for v in vals):
+            if (vals == [1, 0]) == c[2]:
+                return c[0], c[1]
+        return None
+    if isinstance(e, ast.Call) and isinstance(e.func, ast.Attribute) and e.func.attr == "astype" and len(e.args) == 1 and intlike(e.args[0]):
+        c = eq(e.func.value)
+        return (c[0], c[1]) if c and c[2] else None
+    if isinstance(e, ast.Call) and dotted(e.func) in ("np.asarray", "np.array") and e.args and any(k.arg == "dtype" and intlike(k.value) for k in e.keywords):
+        c = eq(e.args[0])
+        return (c[0], c[1]) if c and c[2] else None
+    if isinstance(e, ast.BinOp) and isinstance(e.op, ast.Mult):
+        for a, b in ((e.left, e.right), (e.right, e.left)):
+            if const_value(b, None) == 1 and not isinstance(const_value(b, None), bool):
+                c = eq(a)
+                if c and c[2]:
+                    return c[0], c[1]
+    return None
 
 
 CASES = ("-1", "0", "+")
@@ -875,6 +1028,37 @@ def union_summary(fn):
     from ..canon import _else_form
 
     body = _else_form(copy.deepcopy(strip_docstring(fn.node.body)))
+
+    def forward_adjacent(stmts):
+        """`t = E` directly followed by the only statement that reads t (once): E is written where t was read"""
+        changed = True
+        while changed:
+            changed = False
+            for i in range(len(stmts) - 1):
+                a, b = stmts[i], stmts[i + 1]
+                if isinstance(a, ast.Assign) and len(a.targets) == 1 and isinstance(a.targets[0], ast.Name) and isinstance(b, (ast.Expr, ast.Assign, ast.Return, ast.AugAssign)):
+                    t = a.targets[0].id
+                    reads_b = [n for n in ast.walk(b) if isinstance(n, ast.Name) and n.id == t and isinstance(n.ctx, ast.Load)]
+                    stores_b = [n for n in ast.walk(b) if isinstance(n, ast.Name) and n.id == t and isinstance(n.ctx, ast.Store)]
+                    later = [n for st in stmts[i + 2:] for n in ast.walk(st) if isinstance(n, ast.Name) and n.id == t and isinstance(n.ctx, ast.Load)]
+                    # later reads are fine when every one of them is preceded by a new definition of t (same pattern repeated)
+                    redefined = any(isinstance(st, ast.Assign) and len(st.targets) == 1 and isinstance(st.targets[0], ast.Name) and st.targets[0].id == t
+                                    for st in stmts[i + 2:])
+                    if len(reads_b) == 1 and not stores_b and (not later or redefined) and t.startswith("gen__item"):
+                        class R(ast.NodeTransformer):
+                            def visit_Name(self, n):
+                                return copy.deepcopy(a.value) if n is reads_b[0] else n
+                        stmts[i + 1] = R().visit(b)
+                        del stmts[i]
+                        changed = True
+                        break
+        for st in stmts:
+            for fld in ("body", "orelse"):
+                sub_ = getattr(st, fld, None)
+                if isinstance(sub_, list) and sub_ and isinstance(sub_[0], ast.stmt):
+                    forward_adjacent(sub_)
+
+    forward_adjacent(body)
     # `if g: ...; return acc  else: ...; return acc`  ->  single trailing `return acc`
     def leaf_returns(stmts):
         if not stmts:
@@ -1011,6 +1195,18 @@ def union_summary(fn):
                     if not walk(st.body, g_ if guard is None else f"{guard} and {g_}") or \
                             not walk(st.orelse, f"not ({g_})" if guard is None else f"{guard} and not ({g_})"):
                         return False
+                elif isinstance(st, ast.For) and isinstance(st.target, ast.Name) and not st.orelse and guard is None and inited \
+                        and any(isinstance(n, ast.Name) and n.id == name for n in ast.walk(st)):
+                    # for v in I: [if c:] name.append(E)
+                    inner, flt = st.body, None
+                    if len(inner) == 1 and isinstance(inner[0], ast.If) and not inner[0].orelse:
+                        flt = sub(inner[0].test, st.target.id)
+                        inner = inner[0].body
+                    if not (len(inner) == 1 and isinstance(inner[0], ast.Expr) and isinstance(inner[0].value, ast.Call)
+                            and isinstance(inner[0].value.func, ast.Attribute) and unparse(inner[0].value.func.value) == name
+                            and inner[0].value.func.attr == "append" and len(inner[0].value.args) == 1):
+                        return False
+                    got.add(("each", unparse(st.iter), sub(inner[0].value.args[0], st.target.id), flt))
                 elif isinstance(st, (ast.For, ast.While, ast.Try, ast.With)):
                     if any(isinstance(n, ast.Name) and n.id == name for n in ast.walk(st)):
                         return False
